@@ -293,6 +293,8 @@ CHECKS["C14"] = dict(
                bounds="the server ends the RPC with an OK status while the client is idle (after the handshake and 0-2 answered operations); then 3 further requests are queued: the calls return, the terminated stream (Send returns io.EOF) is recorded as an error, AwaitConverged returns it, Close returns"),
           dict(pkg="client", harness="VfC14_resetCloseError", reach=["end", "reset-done"], validate=2, opts=dict(unwind=40),
                bounds="a fault that arrives while Reset is running: the server answers Reset's own half-close with one of 3 non-OK statuses, after 0-2 answered operations; after Reset no error is left and an exchange on a fresh stream converges"),
+          dict(pkg="client", harness="VfC14_idleFault", reach=["end", "idle", "done-signalled"], validate=2, opts=dict(unwind=40),
+               bounds="a fault when nothing is outstanding: after the handshake and 0-2 answered operations the receive side fails with one of 3 status classes; the error is recorded, AwaitConverged returns it (not convergence), Done is signalled, Close returns"),
           dict(pkg="client", harness="VfC14_twoFaults", reach=["end"], validate=2, opts=dict(unwind=60),
                bounds="a sequence of two faults (each: kind, index, status class symbolic), with Reset + reconnect in between and a healthy exchange at the end")],
     assumptions=["the gRPC stream is a scripted object: a failed Send also ends the receive side, CloseSend ends the stream with EOF", "goroutines run as coroutines switching at synchronisation operations only"],
